@@ -399,13 +399,7 @@ pub fn scenarios(t: &Topo, tier: Tier) -> Vec<Scenario> {
         }
     }
     let max_n = match tier {
-        Tier::Quick => {
-            if descs.len() <= 16 {
-                3
-            } else {
-                2
-            }
-        }
+        Tier::Quick => 3,
         Tier::Thorough => {
             if descs.len() <= 16 {
                 4
@@ -421,7 +415,7 @@ pub fn scenarios(t: &Topo, tier: Tier) -> Vec<Scenario> {
         let mut next = vec![];
         for c in &cur {
             for d in &descs {
-                if n >= 3 && tier == Tier::Quick && d.long {
+                if n >= 3 && tier == Tier::Quick && (d.long || (descs.len() > 16 && (d.dep == 60 || d.dep == 900))) {
                     continue;
                 }
                 if n >= 4 && (d.long || d.dep == 60) {
@@ -444,7 +438,48 @@ pub struct DispatchProp {
     pub which: &'static str,
 }
 
+/// input class of a scenario: does a train originate or terminate on a link that is not the end of the line
+/// (its origin link has a predecessor / its destination link has a successor)?  The dispatcher treats origins as
+/// sources and destinations as sinks; on such links other trains run through the place where a train appears or
+/// vanishes.
+pub fn scenario_class(t: &Topo, sc: &Scenario) -> &'static str {
+    let links = &t.net.0;
+    for d in &sc.trains {
+        let (orig, dest) = origin_dest_links(t, d.od);
+        if orig.iter().any(|l| links[*l].idx_prev.idx() != 0) || dest.iter().any(|l| links[*l].idx_next.idx() != 0) {
+            return "mid-link-terminal";
+        }
+    }
+    "end-of-line-terminals"
+}
+
+fn normalise_digits(s: &str) -> String {
+    let mut out = String::new();
+    let mut last_hash = false;
+    for c in s.chars() {
+        if c.is_ascii_digit() {
+            if !last_hash {
+                out.push('#');
+            }
+            last_hash = true;
+        } else {
+            out.push(c);
+            last_hash = false;
+        }
+    }
+    out
+}
+
 fn judge(which: &str, t: &Topo, sc: &Scenario, ex: &Exec, checks: &mut u64) -> Fails {
+    let mut f = judge_inner(which, t, sc, ex, checks);
+    let class = scenario_class(t, sc);
+    for x in f.iter_mut() {
+        x.0 = format!("{}:{}", x.0, class);
+    }
+    f
+}
+
+fn judge_inner(which: &str, t: &Topo, sc: &Scenario, ex: &Exec, checks: &mut u64) -> Fails {
     let mut f: Fails = vec![];
     if which == "C04" {
         for s in &ex.snaps {
@@ -455,7 +490,7 @@ fn judge(which: &str, t: &Topo, sc: &Scenario, ex: &Exec, checks: &mut u64) -> F
         }
     } else {
         if let Some(p) = &ex.panicked {
-            let class: String = p.chars().take(50).collect::<String>().replace(' ', "_");
+            let class: String = normalise_digits(&p.chars().take(50).collect::<String>().replace(' ', "_"));
             f.push((format!("panic@run_dispatch:{class}"), format!("panic instead of a plan or an error: {}", p.chars().take(300).collect::<String>())));
         } else {
             let fin = ex.snaps.iter().rev().find(|s| s.fin);
@@ -475,7 +510,7 @@ impl Prop for DispatchProp {
         self.which
     }
     fn rule(&self, tier: Tier) -> String {
-        format!("E-SHAPE over dispatch scenarios: topologies {{plain line, single passing siding, two-track terminals (two origin / destination segments), two sidings, a corridor with an intermediate terminal (trains with different destinations following each other), Y junction with three terminals, diamond crossing with symmetric lockout declarations}}{} (10 km terminal links, every link with its flip) x EVERY ordered sequence of n <= {} trains, each train = (origin/destination pair incl. both directions) x departure in {{0, 60, 300, 900}} s (all relative orders and ties) x length in {{360 m, 1080 m}} (later positions restricted as stated in DESIGN); estimated-time networks are the real make_est_times outputs. One real run_dispatch per scenario; hook H1 exposes the dispatch state after every train move and at the end (states = snapshots, transitions = train moves). Oracle {} on every snapshot and on the returned plan. distinct_nontrivial = distinct (topology, outcome, set of events: paused mid-route / blocked behind a train / followed on a link / rewind / re-route / diverged / waited / stuck-error) signatures.", if tier.is_thorough() { " x middle-link length in {0.5, 3, 20 km}" } else { " (middle links 3 km)" }, if tier.is_thorough() { "4 (3 on topologies with more than 16 train descriptors)" } else { "3 (2 on topologies with more than 16 train descriptors)" }, self.which)
+        format!("E-SHAPE over dispatch scenarios: topologies {{plain line, single passing siding, two-track terminals (two origin / destination segments), two sidings, a corridor with an intermediate terminal (trains with different destinations following each other), Y junction with three terminals, diamond crossing with symmetric lockout declarations}}{} (10 km terminal links, every link with its flip) x EVERY ordered sequence of n <= {} trains, each train = (origin/destination pair incl. both directions) x departure in {{0, 60, 300, 900}} s (all relative orders and ties) x length in {{360 m, 1080 m}} (later positions restricted as stated in DESIGN); estimated-time networks are the real make_est_times outputs. One real run_dispatch per scenario; hook H1 exposes the dispatch state after every train move and at the end (states = snapshots, transitions = train moves). Oracle {} on every snapshot and on the returned plan. distinct_nontrivial = distinct (topology, outcome, set of events: paused mid-route / blocked behind a train / followed on a link / rewind / re-route / diverged / waited / stuck-error) signatures.", if tier.is_thorough() { " x middle-link length in {0.5, 3, 20 km}" } else { " (middle links 3 km)" }, if tier.is_thorough() { "4 (3 on topologies with more than 16 train descriptors)" } else { "3 (third train short; on topologies with more than 16 train descriptors its departure is 0 or 300 s)" }, self.which)
     }
     fn assumptions(&self) -> Vec<String> {
         vec![
